@@ -401,16 +401,17 @@ func (f c12frame) term() string {
 }
 
 type c12run struct {
-	frames   []c12frame
-	got      [][][3]uint32 // per connection
-	stuck    bool
-	probes   [3]int // directory, generic object 1, generic object 2
-	obj2     uint32
-	alive    bool
-	removed  [3]bool // the script itself terminated it
-	tags     map[string]bool
-	name     string
-	compared bool
+	frames      []c12frame
+	got         [][][3]uint32 // per connection
+	stuck       bool
+	probes      [3]int // directory, generic object 1, generic object 2
+	obj2        uint32
+	alive       bool
+	removed     [3]bool // the script itself terminated it
+	tags        map[string]bool
+	name        string
+	compared    bool
+	victimStuck []int
 }
 
 // c12exec runs a compared script: a barrier after every frame.
@@ -487,6 +488,18 @@ func c12exec(root string, frames []c12frame, nconn int) (*c12run, error) {
 			r.await(0xfffffff1, 60*time.Millisecond) // whatever is still on its way to this client
 		}
 		run.got = append(run.got, r.got)
+	}
+	// the other clients of the script (connections 1..) must still be served: machineId on the directory
+	for i, r := range conns {
+		if i == 0 || closed[i] {
+			continue
+		}
+		n := len(r.got)
+		r.writeFrame(net.Call, 1, 1, 108, 0xfffffff3, nil)
+		if !r.await(0xfffffff3, c12Answer) {
+			run.victimStuck = append(run.victimStuck, i)
+		}
+		r.got = r.got[:n]
 	}
 	run.alive = ch.alive()
 	run.probes = [3]int{c12probe(ch, 1, 1), c12probe(ch, ch.svc, 1), c12probe(ch, ch.svc, ch.obj2)}
@@ -738,6 +751,9 @@ func (run *c12run) judge(res *hx.Result, sw map[string]bool, desc string) {
 	}
 	if !run.alive {
 		fail("server-died", "the server process exited during: "+desc)
+	}
+	for _, i := range run.victimStuck {
+		fail("other-client-stuck", fmt.Sprintf("connection %d of the script (another client) gets no answer from the service directory any more; script: %s", i, desc))
 	}
 	names := []string{"the service directory (service 1, object 1)", "the generic object (service 2, object 1)", "the second object of the generic service (service 2)"}
 	for i, p := range run.probes {
